@@ -41,6 +41,7 @@ func checkC07(c *Ctx, r *Report) {
 	numFmtWriterRule(c, r, "C07.NUMFMT")
 	sepRule(c, r, "C07.SEP", false)
 	c07Line(c, r)
+	c07Ahead(c, r)
 	c07SubNil(c, r, a)
 	if len(a.missing) == 0 {
 		importRulesFrom(c, r, "C05", func(c *Ctx, sub *Report) { c05Leaf(c, sub, a) }, "C07.LISTLEAF", "every member of a list reaches the response through the output coercer of the element type or a recursive resolve (C05.LEAF, list part): the float coercers are the only place that turns NaN and the infinities into null plus an error - a member taken as it is is printed as the bare word NaN, which no JSON parser accepts", "C05.LEAF~list element")
